@@ -112,6 +112,30 @@ def _cursors(b):
     return out
 
 
+def _scan_cursors(F, b):
+    """column cursors kept as the state of `cells.scan(0, |state, cell| { *state = ..; Some(*state) })`:
+    [(scan call block, scan term, closure body, [(update block, canonical form)], state key)]"""
+    out = []
+    for bb, t in b.calls(lambda cd, t: callee_method(t) == "scan" and ends(cd, "Iterator::scan")):
+        if (op_const(t["args"][1]) or {}).get("int") != 0 or "RenderTableCell" not in " ".join((t.get("callee") or {}).get("targs") or []):
+            continue
+        cpl = direct_place(b, t["args"][2])
+        sd = b.single_def(cpl["l"]) if cpl is not None and is_bare(cpl) else None
+        if not (sd and sd[0] == "stmt" and sd[3]["rv"].get("agg") == "closure"):
+            continue
+        cb = F.bodies.get(sd[3]["rv"].get("def"))
+        if cb is None:
+            continue
+        env = {}
+        forms = []
+        for x in sorted(cb.reachable()):
+            for st in cb.stmts(x):
+                if st["k"] == "assign" and st["lhs"]["l"] == 2 and st["lhs"]["p"] == ["*"] and "use" in st["rv"]:
+                    forms.append((x, norm(cb.canon(st["rv"]["use"], env=env))))
+        out.append((bb, t, cb, forms, norm(cb.canon({"c": {"l": 2, "p": ["*"], "ty": "usize"}}, env=env))))
+    return out
+
+
 def _flows_to_position(b, l):
     """does local l feed an index, a range bound, a set/map key or a colspan/col_width store?"""
     for bb in b.reachable():
@@ -168,9 +192,22 @@ def rule_a(ctx, rid="C06-A"):
                 if some is None:
                     ctx.violation(rid, key + ":in-loop", b.span, b.id, "cannot find the loop body entry")
                     continue
-                cyc = nb in b.reach_from(some, avoid=[ubb])
+                cyc = nb in b.reach_from(some, avoid=[u2 for u2, _f2 in forms])  # (the update may be written in several arms)
                 ctx.check(not cyc, rid, key + ":on-every-path", b.term(ubb)["span"], b.id,
                           "a path through the loop body skips the cursor update (cells after it would land in the wrong column)")
+        for (sbb, stt, cb, forms, k) in _scan_cursors(F, b):
+            pats = [re.compile(p.replace("@K@", re.escape(k))) for p, _d in ADVANCE]
+            okf = bool(forms) and all(any(p.fullmatch(f) for p in pats) for _bb, f in forms)
+            key = "%s:scan-cursor#%s" % (fn, "|".join(sorted(f.replace(k, "K")[:50] for _bb, f in forms)))
+            n += 1
+            good += 1 if okf else 0
+            ctx.check(okf, rid, key + ":advance", stt["span"], cb.id,
+                      "a column cursor (scan state) is advanced as %s; accepted forms: %s" % ([f for _bb, f in forms], [d for _p, d in ADVANCE]))
+            # the update executes on every call of the closure, and what it yields is the updated state
+            ubbs = [x for x, _f in forms]
+            rets = [x for x in cb.reach_from(0, avoid=ubbs) if cb.term(x)["k"] == "return" and x not in ubbs]
+            ctx.check(not rets, rid, key + ":on-every-path", stt["span"], cb.id,
+                      "a path through the scan closure skips the cursor update")
         ctx.check(good >= want_n, rid, "%s:cursors-present" % fn, b.span, b.id,
                   "%d column cursor(s) advancing by the cell's colspan found, %d confirmed by hand" % (good, want_n))
     ctx.floor(rid, "column cursors", n, 6)
@@ -276,7 +313,7 @@ def rule_c(ctx):
 
 
 def rule_d(ctx):
-    C03.rule_g(ctx, only=("RenderTableRow", "RenderTableCell", "SubRenderer<", "RenderLine<"), rid="C06-D")
+    C03.rule_g(ctx, only=("RenderTableRow", "RenderTableCell", "SubRenderer<", "RenderLine<", "RenderInput", "RenderNode"), rid="C06-D")
     F = ctx.facts
     # rows and cells are handed on by plain into_iter().map(..).collect() / for loops
     for fn in ("RenderTable::into_rows", "RenderTableRow::into_cells"):
@@ -331,6 +368,18 @@ def rule_e(ctx):
         # the inserted running position is a cursor advancing by the cell's colspan (C06-A)
         cur = [l for (l, z, u) in _cursors(b) if b.canon(l, env=env) == got_ins[0]]
         okc = len(cur) == 1
+    elif got_ins == ["0_usize"]:
+        # the same walk as `set.extend(cells.scan(0, |pos, cell| { *pos += cell.colspan; Some(*pos) }))`
+        ext = [(bb, t) for bb, t in b.calls(lambda cd, t: callee_method(t) == "extend" and "BTreeSet" in (callee_def(t) or ""))]
+        sc = _scan_cursors(F, b)
+        okc = len(ext) == 1 and len(sc) == 1 and ("call", "std::iter::Iterator::scan") in b.atoms(ext[0][1]["args"][1])
+        if okc:
+            _sbb, _stt, cb, forms, k = sc[0]
+            yields = [norm(cb.canon(st["rv"]["ops"][0])) for x in cb.reachable() for st in cb.stmts(x)
+                      if st["k"] == "assign" and st["lhs"]["l"] == 0 and (st.get("rv") or {}).get("variant") == "Some"]
+            okc = bool(forms) and all(re.fullmatch(r"\(%s \+ [^+]*\.colspan\)" % re.escape(k), f) for _x, f in forms) and yields == [k] and \
+                not any((st.get("rv") or {}).get("variant") == "None" for x in cb.reachable() for st in cb.stmts(x))
+        got_ins = got_ins + ["scan-cursor" if okc else "extend(?)"]
     ctx.check(okc, "C06-E", "remap:inserted-positions={0, running Σcolspan}", b.span, b.id, str(got_ins))
     gets = b.calls(lambda cd, t: callee_method(t) == "get" and "HashMap" in (callee_def(t) or ""))
     okc = len(gets) == 1 and re.fullmatch(r"&\(\$\d+ \+ Ord::max\([^+]*\.colspan, 1_usize\)\)", norm(b.canon(gets[0][1]["args"][1], env=env))) is not None
